@@ -165,6 +165,7 @@ func c03Clients(c *vk.Ctx, r *rand.Rand, w *c03World, fc *udpClient) bool {
 		}
 
 		// --- valid sequence on the association ---
+		replySizes := map[uint64]int{}
 		natPort := 0
 		nSend := 2 + r.Intn(6)
 		for si := 0; si < nSend; si++ {
@@ -178,7 +179,12 @@ func c03Clients(c *vk.Ctx, r *rand.Rand, w *c03World, fc *udpClient) bool {
 			}
 			replies := r.Intn(3)
 			rsize := pick(r, []int{8, 100, 1400, 20000})
+			if r.Intn(6) == 0 {
+				// around the packing limits: such a reply may be dropped, but never altered
+				rsize = pick(r, []int{65440, 65452, 65453, 65460, 65469, 65470, 65480, 65507})
+			}
 			id := nextID(c.Batch)
+			replySizes[id] = rsize
 			payload := mkUDPPayload(id, replies, rsize, size)
 			c.Progress("C03 client=%s key=%s tgt=%s size=%d replies=%d", clientAddr, k.ID, tgt.Name, size, replies)
 			before := tgt.Count()
@@ -220,7 +226,15 @@ func c03Clients(c *vk.Ctx, r *rand.Rand, w *c03World, fc *udpClient) bool {
 			// replies: under the association key, fresh salt, true sender address, intact payload
 			for i := 1; i <= replies && size >= 11; i++ {
 				rid := id | uint64(i)<<56
-				d, ok := cl.waitReply(k, rid, udpB)
+				within := udpB
+				if rsize > 65000 {
+					within = 300 * time.Millisecond // may legitimately not fit: integrity is checked below if it arrives
+				}
+				d, ok := cl.waitReply(k, rid, within)
+				if !ok && rsize > 65000 {
+					c.Count("oversized_replies_not_delivered", 1)
+					continue
+				}
 				if !ok {
 					c.Violation("C03/reply-not-relayed-under-association-key", map[string]any{"client": clientAddr, "key": k, "target": tgt.Name, "reply_size": rsize})
 					return false
@@ -303,6 +317,20 @@ func c03Clients(c *vk.Ctx, r *rand.Rand, w *c03World, fc *udpClient) bool {
 				return false
 			}
 			w.salts[d.Salt] = true
+			// whatever arrives is exactly what some target sent (never a truncated or altered payload)
+			if len(d.Payload) >= 8 {
+				rid := binary.BigEndian.Uint64(d.Payload)
+				if size, known := replySizes[rid&^(uint64(0xff)<<56)]; known {
+					want := replyPayload(rid&^(uint64(0xff)<<56), int(rid>>56), size)
+					if !bytes.Equal(d.Payload, want) {
+						c.Violation("C03/reply-payload-differs", map[string]any{"got_len": len(d.Payload), "sent_len": len(want), "first_diff": firstDiff(d.Payload, want), "client": clientAddr})
+						return false
+					}
+					if size > 65000 {
+						c.Count("boundary_size_replies_intact", 1)
+					}
+				}
+			}
 		}
 		if ci < 2 {
 			c.Sample(map[string]any{"client": clientAddr, "key": k, "key_position": keyPosOf(keys, k), "list_len": len(keys), "datagrams_received": cl.Count()})
